@@ -6,6 +6,11 @@ import (
 	"regexp"
 	"sort"
 	"strings"
+
+	"github.com/google/uuid"
+	"github.com/ovn-org/libovsdb/database/inmemory"
+	"github.com/ovn-org/libovsdb/model"
+	"github.com/ovn-org/libovsdb/ovsdb"
 )
 
 // ---- C02 all-or-nothing ----------------------------------------------------------
@@ -385,8 +390,94 @@ func integrityProblems(sch *Schema, st DBState) []string {
 	return out
 }
 
+// restartEquivalence: a fresh database loaded with exactly the rows stored
+// before the transaction (a restart in which only the rows survive; the
+// reference index is rebuilt from them) must answer the same transaction with
+// the same results and end with the same rows as the long-lived database did.
+func (s *s1) restartEquivalence(i int, out *TxnOutcome) {
+	e := s.e
+	if out.RPCError != "" {
+		return
+	}
+	for _, op := range out.Ops {
+		if op["op"] == "insert" {
+			if u, _ := op["uuid"].(string); u == "" {
+				return // server-assigned uuids differ between the two databases
+			}
+		}
+	}
+	if len(integrityProblems(e.Sch, out.Before)) > 0 {
+		return
+	}
+	var bad, key string
+	ok, _ := e.Sim.Try(func() {
+		priv := inmemory.NewDatabase(map[string]model.ClientDBModel{e.Sch.Name: e.CM})
+		if err := priv.CreateDatabase(e.Sch.Name, e.LibSch); err != nil {
+			return
+		}
+		if err := loadState(priv, e, out.Before); err != nil {
+			e.Probes["c04_restart_load_failed"]++
+			return
+		}
+		var lops []ovsdb.Operation
+		if err := json.Unmarshal(mustJSON(out.Ops), &lops); err != nil {
+			return
+		}
+		res, upd := priv.NewTransaction(e.Sch.Name).Transact(lops...)
+		failed := false
+		for _, r := range res {
+			if r != nil && r.Error != "" {
+				failed = true
+			}
+		}
+		if !failed {
+			if err := priv.Commit(e.Sch.Name, uuid.New(), upd); err != nil {
+				return
+			}
+		}
+		ares, err := decodeResults(mustJSON(res))
+		if err != nil {
+			return
+		}
+		// only the commit-time decision and the resulting rows are compared: what an
+		// individual operation answers (e.g. a wait comparing sets) is not this property's
+		opFailed := func(rs []ActRes) bool {
+			for k, r := range rs {
+				if r.Err != "" && k < len(out.Ops) {
+					return true
+				}
+			}
+			return false
+		}
+		if opFailed(out.Res) || opFailed(ares) {
+			return
+		}
+		e.Probes["c04_restart_equivalence_checked"]++
+		verdict := func(rs []ActRes) string {
+			if len(rs) > len(out.Ops) {
+				return errClass(rs[len(rs)-1].Err)
+			}
+			return "accepted"
+		}
+		if a, b := verdict(out.Res), verdict(ares); a != b {
+			bad, key = fmt.Sprintf("commit-time decision differs: long-lived database: %s, fresh database: %s", a, b), "decision"
+			return
+		}
+		if d := DiffStates(out.After, Snapshot(priv, e.Sch.Name, e.Sch), e.Sch.TableNames, nil); d != "" {
+			bad, key = "resulting rows differ (long-lived vs fresh database):\n"+d, "rows"
+		}
+	})
+	if ok && bad != "" {
+		e.ViolateK("C04.history-dependence", key, "transaction %d: a fresh database holding the same rows behaves differently: %s\nops: %s\nbefore:\n%s", i, bad, shortOps(out.Ops), trimStr(out.Before.String(), 2500))
+	}
+}
+
 func (s *s1) checkC04(i int, out *TxnOutcome) {
 	e := s.e
+	s.restartEquivalence(i, out)
+	if e.Stopped() {
+		return
+	}
 	if !out.Failed {
 		e.Probes["c04_commit_checked"]++
 		if out.After.Rows() > 0 {
